@@ -718,13 +718,27 @@ def aead_case(ctx, inst, mode, nonce, mac_len, parts, m, path, api="one-shot", e
         d = _aead_lib(inst, mode, used, mac_len, extra)
         for p in parts:
             d.update(p)
-        if api == "one-shot" or mode == "SIV":
-            pt = d.decrypt_and_verify(ct, tag)
+        placement = ctx.rng.choice(["returned", "returned", "output", "in-place"]) if mode in ("GCM", "CCM", "EAX", "SIV") else "returned"
+        ctx.count("aead_roundtrip_placement:" + placement)
+        if placement == "returned":
+            if api == "one-shot" or mode == "SIV":
+                pt = d.decrypt_and_verify(ct, tag)
+            else:
+                pt = d.decrypt(ct)
+                if mode == "OCB":
+                    pt += d.decrypt()
+                d.verify(tag)
         else:
-            pt = d.decrypt(ct)
-            if mode == "OCB":
-                pt += d.decrypt()
-            d.verify(tag)
+            # decrypting with the same parameters returns the original message also into a caller-supplied buffer,
+            # including the buffer that holds the ciphertext
+            src_buf = bytearray(ct)
+            out_buf = src_buf if placement == "in-place" else bytearray(len(ct))
+            if api == "one-shot" or mode == "SIV":
+                d.decrypt_and_verify(src_buf, tag, output=out_buf)
+            else:
+                d.decrypt(src_buf, output=out_buf)
+                d.verify(tag)
+            pt = bytes(out_buf)
     except Exception as e:      # noqa
         ctx.check(False, "roundtrip:%s:%s" % (name, mode), "decrypt/verify raised on the library's own ciphertext and tag",
                   lambda: w({"exc": repr(e), "ciphertext": hx(ct), "tag": tag.hex()}))
@@ -1309,8 +1323,24 @@ def w_bulk(spec, ctx):
         first = False
         it += 1
         kind = ("ctr-AES", "chacha", "ctr-64", "arc4", "salsa", "ctr-AES", "chacha", "cbc-AES")[it % 8]
+        if spec.get("idx", 0) == 0 and it == 1 + spec.get("idx", 0):
+            kind = "aead-64k-blocks"
         ctx.count("bulk_cases")
-        if kind.startswith("ctr"):
+        if kind == "aead-64k-blocks":
+            # AEAD message or associated data of more than 65536 blocks: block-index arithmetic beyond 16 bits
+            # (OCB ntz(i) and L-table, GCM/CTR counters); oracle = model mode logic over the library's one-block ECB
+            mode = rng.choice(["OCB", "OCB", "GCM", "EAX"]) if not q else "OCB"
+            nbytes = (65536 + rng.choice([1, 2, 17])) * 16 + rng.choice([0, 1, 15])
+            big_aad = rng.random() < 0.4
+            inst = A.gen_inst(rng, "AES")
+            nonce = rng.randbytes({"OCB": 15, "GCM": 12, "EAX": 16}[mode])
+            if big_aad:
+                aead_case(ctx, inst, mode, nonce, 16, [rng.randbytes(4096) * (nbytes // 4096 + 1)], rng.randbytes(33), "composition")
+            else:
+                aead_case(ctx, inst, mode, nonce, 16, [rng.randbytes(5)], rng.randbytes(4096) * (nbytes // 4096) + rng.randbytes(nbytes % 4096),
+                          "composition")
+            ctx.count("bulk_aead_over_65536_blocks")
+        elif kind.startswith("ctr"):
             name = "AES" if kind == "ctr-AES" else rng.choice(["DES", "DES3", "Blowfish", "CAST", "ARC2"])
             bs = A.BS[name]
             n = rng.randint(hi16 // 4, hi16) if bs == 16 else rng.randint(hi8 // 4, hi8)
